@@ -143,12 +143,12 @@ class ComponentsFileSystemFinder(BaseFinder):
         # Normalize patterns to regexes
         allowed_patterns = [
             # Convert suffixes like `.html` to regex `\.html$`
-            re.compile(rf"\{p}$") if isinstance(p, str) else p
+            re.compile(re.escape(p) + "$") if isinstance(p, str) else p
             for p in app_settings.STATIC_FILES_ALLOWED
         ]
         forbidden_patterns = [
             # Convert suffixes like `.html` to regex `\.html$`
-            re.compile(rf"\{p}$") if isinstance(p, str) else p
+            re.compile(re.escape(p) + "$") if isinstance(p, str) else p
             for p in app_settings.STATIC_FILES_FORBIDDEN
         ]
         return any_regex_match(path, allowed_patterns) and no_regex_match(path, forbidden_patterns)
